@@ -1,7 +1,7 @@
 (* SendSerial: the wire is the concatenation of the segments (whole packets, or a prefix for an aborted / running send),
    for every label sequence, with or without the client lock.  The ResourceGuard alone gives non-interleaving. *)
 From Coq Require Import List Arith Bool ZArith Lia.
-From EN Require Import Lib.Bytes Conc.FairLock Conc.Guard Conc.SendSerial.
+From EN Require Import Lib.Bytes Conc.FairLock Conc.AsyncioLock Conc.Guard Conc.SendSerial.
 Import ListNotations.
 
 Definition tk (s : st) (t : tid) : option tstate := nth_error (s_tasks s) t.
@@ -88,14 +88,52 @@ Qed.
 Lemma W_with_lock : forall l s, W s -> W (with_lock l s).
 Proof. intros. apply (W_ext s); auto. Qed.
 
-Lemma W_unlock : forall t s, W s -> W (unlock t s).
+(* the lock operations leave guard, tasks, wire and segments alone *)
+Definition same_core (s s1 : st) : Prop :=
+  s_guard s1 = s_guard s /\ s_tasks s1 = s_tasks s /\ s_wire s1 = s_wire s /\ s_segs s1 = s_segs s.
+
+Lemma W_core : forall s s1, same_core s s1 -> W s -> W s1.
+Proof. intros s s1 [A [B [C D]]] H. apply (W_ext s); auto. Qed.
+
+Lemma unlock_core : forall t s, same_core s (unlock t s).
 Proof.
-  intros t s H. unfold unlock. destruct (s_uselock s); auto.
-  destruct (fl_release t (s_lock s)); apply (W_ext s); auto.
+  intros. unfold unlock, same_core. destruct (s_lk s); auto.
+  - destruct (fl_release t (s_lock s)); simpl; auto.
+  - destruct (al_release t (s_alock s)); simpl; auto.
 Qed.
 
+Lemma acquire_core : forall t s, same_core s (fst (acquire t s)).
+Proof.
+  intros. unfold acquire, same_core. destruct (s_lk s); simpl; auto.
+  - destruct (fl_acquire t (s_lock s)); simpl; auto.
+  - destruct (al_acquire t (s_alock s)); simpl; auto.
+Qed.
+
+Lemma lk_resume_core : forall t s s1, lk_resume t s = Some s1 -> same_core s s1.
+Proof.
+  intros t s s1 H. unfold lk_resume in H. destruct (s_lk s); try discriminate.
+  - destruct (fl_resume t (s_lock s)); inversion H; subst. unfold same_core; simpl; auto.
+  - destruct (al_resume t (s_alock s)); inversion H; subst. unfold same_core; simpl; auto.
+Qed.
+
+Lemma lk_cancel_core : forall t s s1, lk_cancel t s = Some s1 -> same_core s s1.
+Proof.
+  intros t s s1 H. unfold lk_cancel in H. destruct (s_lk s); try discriminate.
+  - destruct (fl_cancel t (s_lock s)); inversion H; subst. unfold same_core; simpl; auto.
+  - destruct (al_cancel t (s_alock s)); inversion H; subst. unfold same_core; simpl; auto.
+Qed.
+
+Lemma lk_futcancel_core : forall t s s1, lk_futcancel t s = Some s1 -> same_core s s1.
+Proof.
+  intros t s s1 H. unfold lk_futcancel in H. destruct (s_lk s); try (inversion H; subst; unfold same_core; auto; fail).
+  destruct (al_futcancel t (s_alock s)); inversion H; subst. unfold same_core; simpl; auto.
+Qed.
+
+Lemma W_unlock : forall t s, W s -> W (unlock t s).
+Proof. intros t s H. apply (W_core s); auto. apply unlock_core. Qed.
+
 Lemma tk_unlock : forall t s u, tk (unlock t s) u = tk s u.
-Proof. intros. unfold unlock, tk. destruct (s_uselock s); auto. destruct (fl_release t (s_lock s)); auto. Qed.
+Proof. intros. unfold tk. destruct (unlock_core t s) as [_ [A _]]. rewrite A. reflexivity. Qed.
 
 Lemma W_init : forall ul progs, W (st_init ul progs).
 Proof.
@@ -133,15 +171,13 @@ Proof.
     + intros _. constructor; auto. unfold not_active. simpl. discriminate.
     + discriminate.
   - rewrite tk_unlock. unfold gexit, guard_exit. simpl. rewrite G. unfold tk. simpl. eapply upd_eq; eauto.
-  - unfold unlock, gexit, guard_exit. simpl. rewrite G. simpl.
-    destruct (s_uselock s); simpl; auto. destruct (fl_release t (s_lock s)); simpl; auto.
+  - destruct (unlock_core t (gexit (close_seg SgComplete (set_task t TRun s)))) as [A _]. rewrite A.
+    unfold gexit, guard_exit. simpl. rewrite G. reflexivity.
 Qed.
 
 Lemma unlock_proj : forall t x, s_guard (unlock t x) = s_guard x /\ s_tasks (unlock t x) = s_tasks x /\
   s_wire (unlock t x) = s_wire x /\ s_segs (unlock t x) = s_segs x.
-Proof.
-  intros. unfold unlock. destruct (s_uselock x); auto. destruct (fl_release t (s_lock x)); simpl; auto.
-Qed.
+Proof. intros. apply unlock_core. Qed.
 
 Lemma W_abort : forall s t todo rest c, W s -> tk s t = Some (TSend todo rest) -> W (abort_send t c s).
 Proof.
@@ -220,31 +256,31 @@ Proof.
   - apply W_set_plain; auto.
     + intros [a [b C]]. discriminate.
     + intros y Hy. rewrite Ht in Hy. inversion Hy. intros [a [b C]]. discriminate.
-  - destruct (s_uselock s).
-    + destruct (fl_acquire t (s_lock s)) as [l got]. destruct got.
-      * apply W_send_body; auto. apply W_with_lock; auto.
-      * apply W_set_plain.
-        -- apply W_with_lock; auto.
-        -- intros [a [b C]]. discriminate.
-        -- intros y Hy. unfold tk in *. simpl in Hy. rewrite Ht in Hy. inversion Hy. intros [a [b C]]. discriminate.
+  - assert (C := acquire_core t s). destruct (acquire t s) as [s1 got]. simpl in C.
+    assert (W1 : W s1) by (apply (W_core s); auto).
+    assert (T1 : tk s1 t = Some TRun) by (unfold tk in *; destruct C as [_ [C _]]; rewrite C; auto).
+    destruct got.
     + apply W_send_body; auto.
+    + apply W_set_plain; auto.
+      * intros [a [b X]]. discriminate.
+      * intros y Hy. rewrite T1 in Hy. inversion Hy. intros [a [b X]]. discriminate.
 Qed.
 
 Lemma W_step : forall s l s', W s -> s_next s l = Some s' -> W s'.
 Proof.
-  intros s l s' HW H. destruct l as [t|t|t|t|t]; simpl in H; unfold get_task in H;
+  intros s l s' HW H. destruct l as [t|t|t|t|t|t]; simpl in H; unfold get_task in H;
     destruct (nth_error (s_tasks s) t) as [x|] eqn:E; try discriminate.
   - destruct x; try discriminate. inversion H; subst. apply W_run_task.
     + apply W_set_plain; auto.
       * intros [a [b C]]. discriminate.
       * intros y Hy. unfold tk in Hy. rewrite E in Hy. inversion Hy. intros [a [b C]]. discriminate.
     + unfold tk. simpl. eapply upd_eq; eauto.
-  - destruct x; try discriminate. destruct (fl_resume t (s_lock s)) as [l|]; [|discriminate].
-    inversion H; subst. apply W_send_body.
-    + apply W_with_lock. apply W_set_plain; auto.
-      * intros [a [b C]]. discriminate.
-      * intros y Hy. unfold tk in Hy. rewrite E in Hy. inversion Hy. intros [a [b C]]. discriminate.
-    + unfold tk. simpl. eapply upd_eq; eauto.
+  - destruct x; try discriminate. destruct (lk_resume t (set_task t TRun s)) as [s1|] eqn:R; [|discriminate].
+    inversion H; subst. assert (C := lk_resume_core _ _ _ R). apply W_send_body.
+    + apply (W_core (set_task t TRun s)); auto. apply W_set_plain; auto.
+      * intros [a [b X]]. discriminate.
+      * intros y Hy. unfold tk in Hy. rewrite E in Hy. inversion Hy. intros [a [b X]]. discriminate.
+    + unfold tk. destruct C as [_ [C _]]. rewrite C. simpl. eapply upd_eq; eauto.
     + intros. apply W_run_task; auto.
   - destruct x as [| | |todo rest|]; try discriminate. destruct todo as [|pc more]; inversion H; subst.
     + destruct (W_finish s t rest HW E) as [A [B _]]. apply W_run_task; auto.
@@ -254,12 +290,13 @@ Proof.
     + inversion H; subst. apply W_set_plain; auto.
       * intros [a [b C]]. discriminate.
       * intros y Hy. unfold tk in Hy. rewrite E in Hy. inversion Hy. intros [a [b C]]. discriminate.
-    + destruct (fl_cancel t (s_lock s)) as [l|]; [|discriminate]. inversion H; subst.
-      apply W_set_plain.
-      * apply W_with_lock; auto.
-      * intros [a [b C]]. discriminate.
-      * intros y Hy. unfold tk in Hy. simpl in Hy. rewrite E in Hy. inversion Hy. intros [a [b C]]. discriminate.
+    + destruct (lk_cancel t s) as [s1|] eqn:R; [|discriminate]. inversion H; subst.
+      assert (C := lk_cancel_core _ _ _ R). apply W_set_plain.
+      * apply (W_core s); auto.
+      * intros [a [b X]]. discriminate.
+      * intros y Hy. unfold tk in Hy. destruct C as [_ [C _]]. rewrite C, E in Hy. inversion Hy. intros [a [b X]]. discriminate.
     + inversion H; subst. eapply W_abort; eauto.
+  - destruct x; try discriminate. apply (W_core s); auto. eapply lk_futcancel_core; eauto.
 Qed.
 
 Lemma W_run : forall ls s s', W s -> s_run s ls = Some s' -> W s'.
